@@ -162,7 +162,7 @@ static void obs_text(vh_buf_t * b, const obs_t * o) {
 /* service-request announcements seen during the current operation, with the status byte read back
  * from the library at the moment of the call */
 static struct { unsigned n; uint16_t val[16], live[16]; } srq;
-static int g_srq_handler_acts, g_in_srq_handler;
+static int g_srq_handler_acts, g_in_srq_handler; static int16_t g_handler_read[16]; static int g_handler_read_n, g_handler_acted;
 static scpi_result_t my_control(scpi_t * context, scpi_ctrl_name_t ctrl, scpi_reg_val_t val) {
     if (ctrl == SCPI_CTRL_SRQ) {
         if (srq.n < 16) { srq.val[srq.n] = val; srq.live[srq.n] = SCPI_RegGet(context, SCPI_REG_STB); }
@@ -185,6 +185,19 @@ static scpi_result_t my_control(scpi_t * context, scpi_ctrl_name_t ctrl, scpi_re
         vh_count("c11.service_request_handler_cleared_status_on_the_same_context", 1);
     }
 #endif
+#if MON12
+    /* C12: a service-request handler that SERVICES the request by reading the error queue (what a GPIB/USBTMC front end does on SRQ): every
+     * entry it receives is an error that was queued, whatever the library still has to do in the operation that raised the request. It never
+     * clears an event register, so the class bit of each entry it has read must be in ESR when the operation is over. */
+    if (g_srq_handler_acts && ctrl == SCPI_CTRL_SRQ && !g_in_srq_handler) {
+        static unsigned act12;
+        g_in_srq_handler = 1;
+        if (act12++ % 4 != 3) { scpi_error_t e; int guard = 0; while (SCPI_ErrorCount(context) > 0 && guard++ < 16) { SCPI_ErrorPop(context, &e); if (g_handler_read_n < 16) g_handler_read[g_handler_read_n] = e.error_code; g_handler_read_n++; } }
+        else SCPI_RegClearBits(context, SCPI_REG_SRE, val);
+        g_in_srq_handler = 0; g_handler_acted++;
+        vh_count("c12.service_request_handler_read_the_error_queue_or_masked_the_request", 1);
+    }
+#endif
     /* the statement does not make the registers depend on what the application's callback answers: vary it */
     { static unsigned turn; static const scpi_result_t answers[4] = { SCPI_RES_OK, SCPI_RES_ERR, SCPI_RES_OK, (scpi_result_t) 0 }; return answers[turn++ & 3]; }
 }
@@ -202,7 +215,7 @@ static vh_ctx_t * new_ctx(int qcap) {
 
 static void run_op(vh_ctx_t * v, const op_t * op) {
     scpi_t * c = v->ctx;
-    srq.n = 0;
+    srq.n = 0; g_handler_read_n = 0; g_handler_acted = 0;
     v->out.len = 0; v->nerrs = 0;
     switch (op->kind) {
         case K_SET: SCPI_RegSet(c, (scpi_reg_name_t) op->a, op->val); break;
@@ -243,7 +256,7 @@ static void check_cmd_accepted(vh_ctx_t * v, const op_t * op) {
     X(N_LATCH_W, "c12.latch.condition_writes") X(N_LATCH_RISE, "c12.latch.condition_writes_with_rising_bits") \
     X(N_LOSS_OK, "c12.hold.event_bits_cleared_by_listed_operation") X(N_HOLD, "c12.hold.operations_checked") \
     X(N_CLEAR_CHK, "c12.clear.query_or_cls_checked") X(N_PRES_CLEARS, "c12.clear.preset_cleared_ques") \
-    X(N_CLASS, "c12.class.pushes_checked") X(N_CLASS_OVF, "c12.class.pushes_on_full_queue_checked") \
+    X(N_CLASS, "c12.class.pushes_checked") X(N_CLASS_HANDLER, "c12.class.entries_read_by_the_service_request_handler_checked") X(N_CLASS_OVF, "c12.class.pushes_on_full_queue_checked") \
     X(N_CLASS_OVF_REPLACED, "c12.class.pushes_on_full_queue_replaced_by_another_code") \
     X(N_SRQ_EV, "c12.srq.callbacks") X(N_SRQ_RISE, "c12.srq.mss_rises") X(N_SRQ_REPEAT, "c12.srq.callbacks_while_mss_stays_set") \
     X(N_SRQ_QUIET, "c12.srq.operations_with_mss_clear_before_and_after") X(N_SRQ_FALL_EV, "c12.srq.callbacks_in_operations_ending_with_mss_clear") \
@@ -358,6 +371,19 @@ static void monitors(const op_t * op, const obs_t * b, const obs_t * a, int qcap
         }
     }
 
+    if (MON12 && g_handler_acted) {
+        /* the application's handler read the queue or masked the request inside this operation: the before/after rules below assume that only
+         * the library moved the state. What stays decidable for a push: the NEWEST entry - the last one in the queue, or the last one the
+         * handler received if it emptied the queue - was queued by this very operation (older entries may have had their bit read and cleared
+         * since); its class bit must be in ESR when the operation is over (nothing inside a push clears an event bit). */
+        if (op->kind == K_PUSH && (a->count > 0 || g_handler_read_n > 0)) {
+            int newest = a->count > 0 ? a->last : g_handler_read[(g_handler_read_n < 16 ? g_handler_read_n : 16) - 1];
+            const char * cls; uint16_t bit = ref_class(newest, &cls), ea = a->r[SCPI_REG_ESR];
+            ctr[N_CLASS_HANDLER]++;
+            if ((ea & bit) != bit) find("C12:error-queued-while-the-service-request-handler-read-the-queue-not-classified", "push of %d on a queue holding %d of %d: the newest entry %d (%s class) %s, ESR is 0x%04x afterwards: class bit 0x%02x not set",
+                                        (int) op->code, b->count, qcap, newest, cls, a->count > 0 ? "is in the queue" : "was read from the queue by the service-request handler during the push", ea, bit);
+        }
+    } else
     if (MON12) {
         /* (1) classification of a queued error */
         if (op->kind == K_PUSH) {
@@ -639,6 +665,7 @@ static void bfs_run(uint64_t idx, vh_rng_t * rng) {
     vh_watchdog(s->big ? 7000 : 1200);
     build_ops(s);
     g_no_error_cb = (idx % 3 == 1);
+    g_srq_handler_acts = 0;
     v = new_ctx(s->qcap);
     qbytes = sizeof(scpi_error_t) * (size_t) s->qcap;
     snapsz = sizeof(scpi_t) + qbytes;
@@ -769,7 +796,7 @@ static void rnd_op(vh_rng_t * rng, op_t * op) {
 #define RING 8
 static void walk_run(uint64_t idx, vh_rng_t * rng) {
     int qcap = 1 + (int) vh_below(rng, 4), step, f;
-    vh_ctx_t * v = (g_no_error_cb = (idx % 4 == 3), g_srq_handler_acts = (MON11 && idx % 5 == 4), new_ctx(qcap));
+    vh_ctx_t * v = (g_no_error_cb = (idx % 4 == 3), g_srq_handler_acts = (idx % 5 == 4), new_ctx(qcap));
     op_t ring[RING]; obs_t b, a;
     vh_case_desc("random walk of %d operations, queue capacity %d", WALK_STEPS, qcap);
     observe(v->ctx, &a);
@@ -813,7 +840,7 @@ static void walk_run(uint64_t idx, vh_rng_t * rng) {
 #define SWEEP_BLOCK 256
 static uint64_t sweep_count(int thorough) { (void) thorough; return MON12 ? 65536 / SWEEP_BLOCK : 0; }
 static void sweep_run(uint64_t idx, vh_rng_t * rng) {
-    vh_ctx_t * v = (g_no_error_cb = (int) (idx & 1), new_ctx(2));
+    vh_ctx_t * v = (g_no_error_cb = (int) (idx & 1), g_srq_handler_acts = 0, new_ctx(2));
     scpi_t * base = (scpi_t *) malloc(sizeof(scpi_t));
     size_t qbytes = sizeof(scpi_error_t) * 2;
     void * qbase = malloc(qbytes);
@@ -875,7 +902,7 @@ static void cascade_run(uint64_t idx, vh_rng_t * rng) {
     };
     static const char * const wname[] = { "QUES:VOLT", "QUES:VOLT:ENAB", "QUES:VOLT:COND", "OPER:SUB", "OPER:SUB:ENAB", "QUESE", "OPERE", "SRE", "QUES", "OPER", "ESE",
         "QUES:CURR:COND", "QUES:CURR:COND", "QUES:CURR:PTR", "QUES:CURR:NTR", "QUES:CURR", "QUES:CURR:ENAB" };
-    vh_ctx_t * v = (g_no_error_cb = (idx % 4 == 1), new_ctx(2)); scpi_t * c = v->ctx; int step; vh_buf_t hist = { 0, 0, 0 };
+    vh_ctx_t * v = (g_no_error_cb = (idx % 4 == 1), g_srq_handler_acts = 0, new_ctx(2)); scpi_t * c = v->ctx; int step; vh_buf_t hist = { 0, 0, 0 };
     (void) idx;
     for (step = 0; step < 120; step++) {
         int k = (int) vh_below(rng, (uint32_t) (sizeof writable / sizeof writable[0])); scpi_reg_val_t val = (scpi_reg_val_t) (vh_chance(rng, 1, 2) ? (1u << vh_below(rng, 16)) | (vh_below(rng, 2) ? 0x0001 : 0) | (vh_below(rng, 2) ? 0x0200 : 0) | (vh_below(rng, 2) ? 0x0002 : 0) : vh_rand(rng));
@@ -954,7 +981,7 @@ int main(int argc, char ** argv) {
     vh_require("c11.operations_changing_mss");
 #else
     vh_require("c12.sweep.codes");
-    vh_require("c12.class.pushes_checked");
+    vh_require("c12.class.pushes_checked"); vh_require("c12.class.entries_read_by_the_service_request_handler_checked");
     vh_require("c12.latch.condition_writes_with_rising_bits");
 #ifdef VH_CUSTREG_FILTERS
     vh_require("cascade.rising_bit_latched_through_positive_transition_filter");
